@@ -48,3 +48,4 @@ CFG = {'level': 'fault_enumeration',
                     ('rt:blank-then-sig-like:signers=3+:known-signers=1:opened', 1)]},
  'assumptions': ['Ed25519 signatures cannot be forged and crypto/ed25519, crypto/sha256, encoding/base64 are correct',
                  'ref/refnote transcribes the signed-note format of the package documentation correctly']}
+CFG['level_text'] += " Round trips also give a co-signer, or a signature already carried by the note, one of fifteen odd names (invalid UTF-8, spaces, '+', empty, unusual but carriable): Sign may refuse, but a message it returns must open with the same text."
